@@ -403,6 +403,49 @@ theorem C36_wellformed (r : Int) (hr : 0 < r) (data : List Raw) (nc : Nat) (hnc 
     obtain ⟨c, hcm, hpc⟩ := List.mem_flatMap.mp hp
     exact hrange c hcm p.1 (List.mem_map.mpr ⟨p, hpc, rfl⟩)
 
+/-- **C36, read-back over any range.**  Reading the count (sum, min, max) aggregate through the
+    querier's series bounded to `[mint, maxt]` (chunkSeriesIterator over ALL chunks of the series,
+    wrapped by the bounded iterator) returns exactly the samples of the concatenated sub-chunks —
+    the window aggregates of `C36_windows` — whose timestamp lies in `[mint, maxt]`, both ends
+    inclusive, for every `mint`, `maxt` (chunk boundaries, point ranges, empty ranges included). -/
+theorem C36_readback_range (r : Int) (hr : 0 < r) (data : List Raw) (nc : Nat) (hnc : 0 < nc) (ok : RawOK data)
+    (mint maxt : Int) :
+    ∃ chunks, downsampleRaw data r nc = some chunks ∧
+      boundedDrain mint maxt (chunkSeriesIter (chunks.map (·.count))) =
+        (chunks.flatMap (·.count)).filter (fun p => mint ≤ p.1 ∧ p.1 ≤ maxt) ∧
+      boundedDrain mint maxt (chunkSeriesIter (chunks.map (·.sum))) =
+        (chunks.flatMap (·.sum)).filter (fun p => mint ≤ p.1 ∧ p.1 ≤ maxt) ∧
+      boundedDrain mint maxt (chunkSeriesIter (chunks.map (·.min))) =
+        (chunks.flatMap (·.min)).filter (fun p => mint ≤ p.1 ∧ p.1 ≤ maxt) ∧
+      boundedDrain mint maxt (chunkSeriesIter (chunks.map (·.max))) =
+        (chunks.flatMap (·.max)).filter (fun p => mint ≤ p.1 ∧ p.1 ≤ maxt) := by
+  obtain ⟨chunks, hc, r1, r2, r3, r4⟩ := C36_readback r hr data nc hnc ok.toIn
+  obtain ⟨chunks', hc', hwf⟩ := C36_wellformed r hr data nc hnc ok
+  rw [hc] at hc'; cases hc'
+  have hsorted : ∀ (sel : Chunk → List Pt), (∀ c ∈ chunks, (sel c).map (·.1) = c.count.map (·.1)) →
+      Sorted (chunks.flatMap sel) := by
+    intro sel hsel
+    unfold Sorted
+    have := hwf.sorted
+    rw [← flatMap_ts_eq sel chunks hsel] at this
+    exact List.pairwise_map.mp this
+  refine ⟨chunks, hc, ?_, ?_, ?_, ?_⟩
+  · rw [r1]; exact boundedDrain_sorted mint maxt _ (hsorted _ (fun _ _ => rfl))
+  · rw [r2]; exact boundedDrain_sorted mint maxt _ (hsorted _ (fun c hc => (hwf.each c hc).sumT))
+  · rw [r3]; exact boundedDrain_sorted mint maxt _ (hsorted _ (fun c hc => (hwf.each c hc).minT))
+  · rw [r4]; exact boundedDrain_sorted mint maxt _ (hsorted _ (fun c hc => (hwf.each c hc).maxT))
+
+/-- Regenerated obligations about the querier's series: every loop of `chunkSeries.Iterator` that
+    builds the per-chunk iterators ranges over all chunks of the series (no trimming: the model's
+    `chunkSeriesIter` gets every chunk), and the result is wrapped by the bounded iterator with the
+    series' `mint`, `maxt`. -/
+theorem C36_querier_facts :
+    Thanos.Facts.dsQuerierChunkLoops = ["range s.chunks", "range s.chunks", "range s.chunks", "range s.chunks",
+      "range s.chunks", "range s.chunks"] ∧
+    Thanos.Facts.dsQuerierBounded = ["dedup.NewBoundedSeriesIterator(sit, s.mint, s.maxt)",
+      "dedup.NewBoundedSeriesIterator(sit, s.mint, s.maxt)"] :=
+  ⟨by decide, rfl⟩
+
 /-- int64: for timestamps and resolutions below 2^62 every intermediate value of `currentWindow`
     (and `lastT + 1` in the readers) stays inside int64, so the `Int` model and the Go code agree -/
 theorem C36_no_overflow (t r : Int) (ht : 0 ≤ t) (ht' : t < 2 ^ 62) (hr : 0 < r) (hr' : r < 2 ^ 62) :
